@@ -258,7 +258,7 @@ def main():
             log("VIOLATION property=%s replay=%s" % (prop, (rp or {}).get("path") or path))
 
     wall = time.time() - t0
-    if not args.only and not dev:
+    if not args.only and not dev and not os.environ.get("VERIF_NO_EVIDENCE"):
         write_evidence(prop, tier, seed, results, wall, violations, inconclusive)
     if not args.keep:
         scratch._cleanup()
